@@ -229,11 +229,25 @@ func runC15WriteFaultTCP(c *mon.Case) {
 	}
 	fr := rand.New(rand.NewSource(rng.Int63()))
 	fired := 0
+	// The shape of the timeout error is the transport's business: a bare
+	// error value, a *net.OpError around it (what a socket returns), or an
+	// error wrapped with %w by a layer in between (a proxy dialer). The
+	// record must stay pending and resumable in every case.
+	errKind := fr.Intn(3)
+	mkErr := func() error {
+		switch errKind {
+		case 1:
+			return &net.OpError{Op: "write", Net: "tcp", Err: timeoutErr{}}
+		case 2:
+			return fmt.Errorf("proxied connection: write: %w", timeoutErr{})
+		}
+		return timeoutErr{}
+	}
 	a2b.WriteErr = func(idx int, p []byte) (int, error) {
 		if faults[idx-base] && len(p) > 0 {
 			delete(faults, idx-base)
 			fired++
-			return fr.Intn(len(p)), timeoutErr{}
+			return fr.Intn(len(p)), mkErr()
 		}
 		return len(p), nil
 	}
@@ -279,7 +293,7 @@ func runC15WriteFaultTCP(c *mon.Case) {
 			break
 		}
 	}
-	rep := map[string]any{"variant": "T-write-fault", "total": total, "calls": log, "faults_fired": fired}
+	rep := map[string]any{"variant": "T-write-fault", "total": total, "calls": log, "faults_fired": fired, "timeout_error_shape": []string{"bare", "*net.OpError", "wrapped with %w"}[errKind]}
 	if string(got) != string(data) {
 		c.Shard.Violate("contract|T|write-fault", fmt.Sprintf("a %d-byte write interrupted by %d transport write timeouts and resumed with Flush/Write: the reader received %d bytes, first difference at offset %d (sender's account of bytes written: %d): %v", total, fired, len(got), firstDiff(got, data), off, log), rep)
 	}
